@@ -133,7 +133,9 @@ fn case_relatives() -> &'static Vec<Vec<char>> {
     static REL: std::sync::OnceLock<Vec<Vec<char>>> = std::sync::OnceLock::new();
     REL.get_or_init(|| {
         let mut rel: Vec<Vec<char>> = vec![Vec::new(); 128];
-        for v in 0x80u32..0x110000 {
+        // scanning 1.1 million scalars is far too slow under the Miri interpreter
+        let upper = if cfg!(miri) { 0x2200u32 } else { 0x110000 };
+        for v in 0x80u32..upper {
             if let Some(x) = char::from_u32(v) {
                 for y in x.to_lowercase().chain(x.to_uppercase()) {
                     if y.is_ascii() && !rel[y as usize].contains(&x) {
